@@ -15,7 +15,8 @@
  *   spin: seed of the per-task busy wait (0 = no wait)
  *   flags: bit0 = skip parsec_dtd_data_flush_all before the wait
  *          bit1 = "hold": every body waits until the main thread has inserted the whole
- *                 sequence (only used when the window never blocks the inserting thread)
+ *                 sequence, or reached the first wait point "!" (only used when the window
+ *                 never blocks the inserting thread)
  *
  * observation line (schedule independent when C03/C04 hold):
  *   in: <t>=<v>,<v> ... | data: v ... | runs: c ... | conflicts=<n> null=<k>
@@ -265,7 +266,10 @@ static void run_case(FILE *out) {
 
     int has_nested = 0;
     for (int i = 0; i < C.ntasks; i++) {
-        if (C.t[i].wait_before && !(C.flags & 2)) {
+        if (C.t[i].wait_before) {
+            /* under "hold" the bodies are released at the first wait point: everything before it
+             * was inserted while its predecessors were still alive */
+            if (C.flags & 2) { parsec_mfence(); go_flag = 1; }
             rc = parsec_taskpool_wait(g_tp);
             if (rc < 0) { fprintf(out, "<taskpool_wait rc=%d>\n", rc); return; }
         }
